@@ -97,6 +97,26 @@ async fn build(cx: &Ctx, rpc: Rpc, n: usize, mixed: bool, hist: usize) -> Result
                 }
                 expect.push(name);
             }
+            4 => {
+                // rejected requests before the walk: duplicate creates (naming another topic where that is possible) change nothing
+                for name in expect.iter().take(3) {
+                    let (a2, n2) = (a.clone(), name.clone());
+                    let is_topic = rpc == Rpc::Topics;
+                    let other_topic = topic_b.clone();
+                    let r = cx
+                        .settle("setup:duplicate-create", async move {
+                            if is_topic {
+                                a2.create_topic(&n2).await.map(|_| ())
+                            } else {
+                                a2.create_sub(&n2, &other_topic, 10, None).await.map(|_| ())
+                            }
+                        })
+                        .await?;
+                    if r != Err(Code::AlreadyExists) {
+                        return Err(Verdict::Violation { sig: "setup/duplicate-create-not-rejected".into(), detail: format!("duplicate create of {} returned {:?}", name, r) });
+                    }
+                }
+            }
             _ => {}
         }
     }
@@ -167,6 +187,16 @@ fn walk_unit(name: &str, ns: Vec<usize>, hists: Vec<usize>, mixes: Vec<bool>) ->
                         return ScenarioOut::viol("walk/endless", format!("{}: more than {} pages", case, pages));
                     }
                     token = next;
+                }
+            }
+        }
+        if rpc == Rpc::TopicSubs {
+            // nothing of topic A's may show up under topic B
+            let a2 = cx.api.clone();
+            let other = tryv!(cx.settle("client:list-other", async move { a2.list_topic_subs("projects/p/topics/scope-b", 1000, "").await }).await);
+            if let Ok((items, _)) = other {
+                if let Some(x) = items.iter().find(|x| expect.contains(x)) {
+                    return ScenarioOut::viol("walk/foreign-or-deleted-resource", format!("{}: ListTopicSubscriptions of the other topic contains {}", case, x));
                 }
             }
         }
@@ -297,10 +327,10 @@ fn token_unit() -> Unit {
 
 pub fn units(thorough: bool) -> Vec<Unit> {
     let mut v = vec![];
-    let small: Vec<usize> = if thorough { (0..=12).collect() } else { (0..=6).collect() };
-    v.push(walk_unit("walk-small", small, vec![0, 1, 2, 3], vec![false, true]));
+    let small: Vec<usize> = if thorough { (0..=24).collect() } else { (0..=6).collect() };
+    v.push(walk_unit("walk-small", small, vec![0, 1, 2, 3, 4], vec![false, true]));
     v.push(walk_unit("walk-default-size", vec![19, 20, 21, 41], vec![0, 2], vec![false, true]));
-    v.push(walk_unit("walk-max-size", if thorough { vec![999, 1000, 1001, 2001] } else { vec![1001] }, vec![0, 2], if thorough { vec![false, true] } else { vec![false] }));
+    v.push(walk_unit("walk-max-size", if thorough { vec![247, 248, 256, 999, 1000, 1001, 2001, 3000] } else { vec![1001] }, vec![0, 2], if thorough { vec![false, true] } else { vec![false] }));
     v.push(token_unit());
     v
 }
